@@ -10,7 +10,7 @@ fn lit_keys(present: bool) -> Option<SessionKeys> {
 }
 fn lit_hctx(keys: bool, crypto: bool) -> HandshakeContext {
     HandshakeContext {
-        sequence_number: 0, epoch: 0, read_epoch: 0, message_seq: 0, recv_message_seq: 0, post_hvr: false,
+        sequence_number: 0, epoch: 0, read_epoch: 0, current_record_epoch: 0, message_seq: 0, recv_message_seq: 0, post_hvr: false,
         last_flight_records: None, incomplete_handshake: BytesMut::new(), incomplete_msg_seq: 0,
         local_secret: None, local_public_key_bytes: Vec::new(), peer_public_key: None, peer_certificate: None,
         client_random: None, server_random: None,
